@@ -27,6 +27,17 @@ Exec(x, i) ==
     [] i.k = "cbz"  -> ExecCBZ(x, i)
     [] i.k = "it"   -> ExecIT(x, i)
     [] i.k = "tb"   -> ExecTB(x, i)
+    [] i.k = "msr"  -> ExecMSR(x, i)
+    [] i.k = "mrs"  -> ExecMRS(x, i)
+    [] i.k = "cps"  -> ExecCPS(x, i)
+    [] i.k = "setend" -> ExecSETEND(x, i)
+    [] i.k = "hint" -> ExecHint(x, i)
+    [] i.k = "excret" -> ExecExcRetDP(x, i)
+    [] i.k = "rfe"  -> ExecRFE(x, i)
+    [] i.k = "srs"  -> ExecSRS(x, i)
+    [] i.k = "ldmx" -> ExecLDMx(x, i)
+    [] i.k = "stmu" -> ExecSTMuser(x, i)
+    [] i.k = "smc"  -> ExecSMC(x, i)
     [] i.k = "ls"   -> ExecLS(x, i)
     [] i.k = "lsd"  -> ExecLSD(x, i)
     [] i.k = "ldm"  -> ExecLDM(x, i)
@@ -34,7 +45,8 @@ Exec(x, i) ==
     [] i.k = "udf"  -> Raise(x, "undef")
     [] i.k = "svc"  -> Raise(x, "svc")
     [] OTHER -> NotImpl(x, "spec-missing:" \o i.k)
-Executable == {"dp", "adr", "movw", "movt", "b", "bl", "blxr", "bx", "cbz", "it", "udf", "svc", "ls", "lsd", "ldm", "stm", "tb"}
+Executable == {"dp", "adr", "movw", "movt", "b", "bl", "blxr", "bx", "cbz", "it", "udf", "svc", "ls", "lsd", "ldm", "stm", "tb",
+               "msr", "mrs", "cps", "setend", "hint", "excret", "rfe", "srs", "ldmx", "stmu", "smc"}
 
 \* the fetch: act = [n |-> "Step"] reads memory at PC; act = [n |-> "Exec", w, len] uses the given word
 FetchInstr(x, act) ==
@@ -96,7 +108,10 @@ StepF(s, act) ==
           LET x1 == Exec(f.x, i) IN
           IF x1.ni # "" THEN Result(s, "notimpl:" \o x1.ni, FALSE, "envelope:notimpl:" \o i.enc, x1, FALSE, nop)
           ELSE IF x1.ab.t # "none" THEN
-            Result(TakeExc(x1, f.len), x1.ab.t, ~x1.unp, (IF x1.unp THEN "envelope:unpredictable:" ELSE "exact:exc:") \o i.enc, x1, FALSE, nop)
+            \* the HSR syndrome of exceptions taken to Hyp mode is not specified here (don't-care)
+            LET post == TakeExc(x1, f.len)
+                x1h  == IF PM(post.cpsr) = HYP THEN [x1 EXCEPT !.dcS = @ \cup {"HSR"}] ELSE x1
+            IN Result(post, x1.ab.t, ~x1.unp, (IF x1.unp THEN "envelope:unpredictable:" ELSE "exact:exc:") \o i.enc, x1h, FALSE, nop)
           ELSE
             LET s1 == IF x1.br THEN x1.s ELSE SetPC(x1.s, AddInt(x1.s.R.PC, f.len \div 8))
                 s2 == IF inIT THEN ITAdvanced(s1) ELSE s1
